@@ -130,7 +130,9 @@ func (d *discovery) handlerResourceChange(eventCh state.WatchEventChan) {
 			for _, kv := range event.KeyValues {
 				d.listener.OnDelete(kv.Key)
 			}
-		case state.EventTypeModify:
+		case state.EventTypeModify, state.EventTypeAll:
+			// EventTypeAll is what the watcher stores under the prefix when it (re)starts; changes made between
+			// the initial list and that moment are in no other event.
 			for _, kv := range event.KeyValues {
 				d.listener.OnCreate(kv.Key, kv.Value)
 			}
